@@ -405,7 +405,7 @@ def replay(body):
     c = body["case"]
     print(json.dumps(c))
     print(json.dumps(body.get("detail"), default=str))
-    if c["kind"] in ("elements", "plumbing", "memo", "lazy-op"):
+    if c["kind"] in ("elements", "plumbing", "memo", "lazy-op", "named-reuse"):
         return c19_deep.replay(c)
     if c["kind"] == "program":
         prog = [(n, tuple(tuple(x) if isinstance(x, list) else x for x in a)) for n, a in c["program"]]
